@@ -372,6 +372,10 @@ func judgeSequential(w *proxyWorld, res *Result) {
 					res.violate("C08.a", "origin-416-not-relayed", "%s: the origin answered 416 (%d bytes), the client received %d with %d body bytes [%s]", desc, len(first.RespBody), ex.Status, len(ex.Body), pd)
 				}
 				for _, c := range cons {
+					if c.Marker && c.Status == 304 && st.stored != nil && st.present && st.storable == storeMust && len(st.alts) == 0 && !(ex.Status == 304 && clientSentConditional(ex)) {
+						// the proxy used a 304 that answered the client's validator as if it had answered the stored one
+						res.violate("C06.b", "client-validator-forwarded (Range request, 304 used for the stored entry)", "origin request #%d for %s carried the client's conditional header %v; the origin's 304 was not relayed to the client but taken as a revalidation of stored response #%d [%s]", c.N, desc, condHdrs(c.Hdr), st.stored.N, pd)
+					}
 					if c.Status == 200 && c.Method == "GET" && c.Hdr.Get("Range") == "" {
 						st.alts = nil // a plain 200: stored (or not) like after any miss
 					}
@@ -611,6 +615,8 @@ func seqAbsorb(w *proxyWorld, p *ProxyPlan, st *seqState, o *OLog, ex *Exch, def
 		}
 		st.times[o.N] = seqTimes{st.lo, st.hi}
 		st.storable, st.freshKnown, st.renewed304 = storeMay, false, false
+	case o.Status == 304 && st.stored != nil && o.Marker:
+		// the origin confirmed the client's own validator, not the stored response: nothing is renewed
 	case o.Status == 304 && st.stored != nil:
 		st.freshLo = o.T.Add(def)
 		hi := ex.RecvT
